@@ -713,6 +713,14 @@ class DMETProblemDecomposition(ProblemDecomposition):
             float: The chemical potential found by the optimizer.
         """
 
-        result = scipy.optimize.newton(func, var_params, tol=1e-5)
+        # Nothing to optimize when the initial value already yields the right number of electrons, e.g. when the
+        # electron count does not depend on the chemical potential (the secant method cannot make a step then).
+        tol = 1e-5
+        initial_cost = func(var_params)
+        if abs(initial_cost) < tol:
+            return var_params
+
+        # The cost at the initial value is not computed a second time
+        result = scipy.optimize.newton(lambda x: initial_cost if x == var_params else func(x), var_params, tol=tol)
 
         return result.real
